@@ -1,3 +1,4 @@
+import Ucan.Lemmas.CborPrefix
 import Ucan.Props.C17
 /-!
 # C18 — streaming APIs agree with buffered APIs and surface every I/O fault
@@ -161,5 +162,26 @@ theorem C18_truncation_car (headerOk : Bytes → Bool) (hashOk : Bytes → Bytes
   · rw [hs]
     simp only [hh, if_true]
     exact readBlocks_prefix hashOk bs p' _ hw hp' (by omega)
+
+/-- C18 (truncation, DAG-CBOR): a stream that ends early never yields a token — no proper prefix of bytes that the
+decoder accepts as one complete item is itself accepted (`Cbor.decode_proper_prefix_none`: the lenient decoder reads an
+item from a prefix of its input and never looks further). This is about DECODER INPUT, not only about the encoder's image. -/
+theorem C18_truncated_sealed_is_error (b p : Bytes) (n : Node) (h : Cbor.accept b = some n) (hp : p <+: b) (hne : p ≠ b) :
+    Cbor.accept p = none := by
+  unfold Cbor.accept at h ⊢
+  cases hd : Cbor.decode b with
+  | none => rw [hd] at h; cases h
+  | some m =>
+    rw [Cbor.decode_proper_prefix_none b p m hd hp hne]
+
+/-- C18 (truncation, CBOR container): a proper prefix of a container that reads is not a container -/
+theorem C18_truncated_cbor_container {T : Type} (unsealFn : Bytes → Option (Bytes × T)) (b p : Bytes) (es : Entries T)
+    (h : fromCbor unsealFn .eof b = .ok es) (hp : p <+: b) (hne : p ≠ b) :
+    fromCbor unsealFn .eof p = .error .notContainer := by
+  unfold fromCbor at h ⊢
+  cases hd : Cbor.decode b with
+  | none => simp [hd] at h
+  | some m =>
+    simp only [Cbor.decode_proper_prefix_none b p m hd hp hne]
 
 end Ucan.Container
